@@ -168,19 +168,27 @@ def build_all(quiet=False, race=False):
                 r.driver_ok = True
         # scratch trees a killed harness worker may have left behind
         for d in os.listdir(BUILD):
-            if d.startswith("verifc16"):
+            # (not the ones a check running at the same time is using: only trees older than two hours)
+            if d.startswith("verifc16") and time.time() - os.path.getmtime(os.path.join(BUILD, d)) > 7200:
                 shutil.rmtree(os.path.join(BUILD, d), ignore_errors=True)
         # Go harness, always from /repo's current working tree
         hdir = os.path.join(VERIF, "harness")
-        cmd = ["go", "build", "-tags", "verif", "-o", os.path.join(BUILD, "harness")]
+        # (built beside the target and moved over it: a check running at the same time keeps the binary it started with)
+        cmd = ["go", "build", "-tags", "verif", "-o", os.path.join(BUILD, "harness.new")]
         rc, out, _ = run(cmd + ["."], cwd=hdir, env=GOENV, timeout=600)
         r.harness_ok = rc == 0
         r.harness_log = out
+        if rc == 0:
+            os.replace(os.path.join(BUILD, "harness.new"), os.path.join(BUILD, "harness"))
         if race:
             env = dict(GOENV, CGO_ENABLED="1")
-            rc, out, _ = run(["go", "build", "-race", "-tags", "verif", "-o", os.path.join(BUILD, "harness_race"), "."],
+            rc, out, _ = run(["go", "build", "-race", "-tags", "verif", "-o", os.path.join(BUILD, "harness_race.new"), "."],
                              cwd=hdir, env=env, timeout=900)
             r.harness_log += out
+            if rc == 0:
+                os.replace(os.path.join(BUILD, "harness_race.new"), os.path.join(BUILD, "harness_race"))
+            else:
+                r.harness_ok = False
     r.wall = time.time() - t0
     return r
 
